@@ -4,7 +4,11 @@
    Reading guide.  Spec = Crypto/AesSpec.v (FIPS-197 with the S-box DEFINED as inverse + affine map;
    ctr_spec = data XOR E(nonce_be64 || i_be64), i = 0, 1, ...).  Model = Accel/AesNi.v (instruction
    level model of crypto_aes_aesni.c driven by the regenerated MKRKEY / aes_key[] tables) and
-   Crypto/AesCtrModel.v (crypto_aesctr*.c for an arbitrary block function E).  x_* / repo_* =
+   Crypto/AesCtrModel.v (crypto_aesctr*.c for an arbitrary block function E; its bookkeeping arithmetic -
+   every update of bytectr / *buflen / the block counter / pblk[15], every condition and call argument
+   over them - is NOT hand-written: it is regenerated from the C text as expression trees,
+   Gen/Repo_aes_arith.v, and evaluated with C integer semantics, Crypto/AesCtrArith.v; see
+   C03_ctr_regenerated_bookkeeping_eq_reference in Properties_C03_aes.v).  x_* / repo_* =
    the models instantiated with the constants regenerated from the C (Crypto/AesRepo.v).
    st_wf any = the two arrays of the struct have 16 bytes, contents arbitrary ("any prior state").
    hw = whether the AES-NI path was selected; with hw = true a call of >= 16 bytes takes the
